@@ -207,7 +207,25 @@ def rule_sort_whole_lines(ctx):
         r.check(bool(whole), "delete_chunks_on_line_having_chunk<-%s" % g.qn, db.loc(g, n),
                 "a whole line is deleted as a duplicate under a test that does not compare the two lines token by token to their ends "
                 "(comparison functions in the guard: %s): lines that only share their first token are lost" % sorted(db.funcs[k].qn for k in cmp_funcs))
-    r.floor(6)
+    # an entry is one physical line: sort_imports() registers the first chunk of an import/using/include when it reaches the
+    # newline of that line, and do_the_sort() moves exactly that line.  The pending entry must not survive the newline.
+    si = db.fn("sort_imports", file="src/sorting.cpp")
+    r.names(si, "p_imp", "p_last", "pc")
+    nlb = [b for b, blk in si.blocks.items() if blk.get("term") and expr_str(si, blk["term"].get("lc", blk["term"].get("c"))) == "pc->IsNewline()" and len(si.succ[b]) == 2]
+    r.require(len(nlb) >= 1, "sort_imports: the newline arm was not found")
+    steps = [n for n in si.all_nodes() if n["k"] == "asg" and expr_str(si, n["i"]) in ("pc = next",) or
+             (n["k"] == "asg" and expr_str(si, n["i"]).startswith("pc = ") and "GetNext" in expr_str(si, n["i"]))]
+    r.require(steps, "sort_imports: the step to the next chunk was not found")
+    stepids = set(n["i"] for n in steps)
+    for var in ("p_imp", "p_last"):
+        r.seen()
+        resets = set(n["i"] for n in si.all_nodes() if n["k"] == "asg" and expr_str(si, n["i"]) in ("%s = Chunk::NullChunkPtr" % var, "%s = NullChunkPtr" % var))
+        w = si.paths_avoiding(si.succ[nlb[0]][0], lambda n: n["i"] in stepids or n["k"] == "ret", lambda n: n["i"] in resets or (n["k"] == "call" and n.get("c") == "exit"),
+                              start_is_node=False)
+        r.check(bool(resets) and w is None, "sort_imports/%s-reset-at-every-newline" % var, db.loc(si, si.blocks[nlb[0]]["term"]["l"]),
+                "after a newline `%s` can still hold a chunk of the line that has just ended: the entry registered later is not the first chunk of "
+                "its own line and SwapLines() tears the declaration apart" % var, path=["%s:%d" % (si.file, l) for l in si.path_lines(w[0])][-6:] if w else None)
+    r.floor(8)
 
 
 def rule_move_across_break(ctx):
